@@ -122,7 +122,8 @@ class SigmaCorrelationCondition:
         unknown_keys = d_keys.difference(ops).difference({"field", "percentile"})
         if unknown_keys:
             raise sigma_exceptions.SigmaCorrelationConditionError(
-                "Sigma correlation condition contains invalid items: " + ", ".join(unknown_keys),
+                "Sigma correlation condition contains invalid items: "
+                + ", ".join(str(key) for key in unknown_keys),
                 source=source,
             )
 
@@ -136,7 +137,7 @@ class SigmaCorrelationCondition:
                 cond_op = SigmaCorrelationConditionOperator[op.upper()]
                 try:
                     cond_count = int(d[op])
-                except ValueError:
+                except (ValueError, TypeError):
                     raise sigma_exceptions.SigmaCorrelationConditionError(
                         f"'{ d[op] }' is no valid Sigma correlation condition count", source=source
                     )
